@@ -47,6 +47,9 @@ def interpreters():
     return _INTERPRETERS
 
 
+CALL_TIMEOUT = int(os.environ.get("VF_CALL_TIMEOUT", "420"))
+
+
 class WorkerDied(Exception):
     pass
 
@@ -87,12 +90,27 @@ class Worker:
             self.start()
         kw["op"] = op
         self.calls += 1
+        timed_out = False
         try:
             self.proc.stdin.write(json.dumps(kw) + "\n")
             self.proc.stdin.flush()
-            line = self.proc.stdout.readline()
+            # a worker that neither answers nor dies (a hang inside the code under test, or inside an interpreter)
+            # must not hang the check: after CALL_TIMEOUT seconds without the first byte of an answer it is killed
+            import select
+            ready, _, _ = select.select([self.proc.stdout], [], [], CALL_TIMEOUT)
+            if not ready:
+                timed_out = True
+                self.proc.kill()
+                self.proc.wait()
+                line = ""
+            else:
+                line = self.proc.stdout.readline()
         except (BrokenPipeError, OSError):
             line = ""
+        if timed_out:
+            self.restarts += 1
+            self.proc = None
+            raise WorkerDied("%s worker (%s) gave no answer within %ds on op %s (killed)" % (self.version, self.role, CALL_TIMEOUT, op))
         if not line:
             rc = self.proc.poll()
             self.restarts += 1
